@@ -5,6 +5,7 @@ import PetgraphModel.Oracle.C15Matching
 import PetgraphModel.Oracle.C15Flow
 import PetgraphModel.Model.C15Matching
 import PetgraphModel.Model.C15Flow
+import PetgraphModel.Oracle.C15BarrierSearch
 /-
 C15 driver.  Requests (after a `graph … enc=<encoding>` line):
 
@@ -13,9 +14,22 @@ C15 driver.  Requests (after a `graph … enc=<encoding>` line):
   flow <s> <t> w=<type> eb=<edge_bound>     => value=<v> len=<n> flows=<eid:f,..> vacnz=<n>   (or `panic`)
 
 Spec level (against the abstract `MGraph` only): `checkMate` (valid matching), accessor agreement
-with `mate`, `len = maxMatchingSize` for `maximum`; `judgeFlow` (capacity, conservation, value, and
-the residual cut certificate through the proved `reachFrom`).  Exact level: the mirror models on the
-view.  `KNOWN D25`: `maximum` on directed storage, everything valid, exactly the answer of the
+with `mate` (`judgeAccessors`), and for `maximum` the maximality judge `judgeMaximum`: on EVERY case the
+untrusted `findBarrierFast` proposes a Tutte–Berge barrier for the implementation's matching and the
+proved-sound `checkBarrier` checks it; the size of a maximum matching is `maxMatchingSize` (exhaustive,
+definitional) on graphs of at most `exhaustiveLimit` nodes and the answer of the proved Gabow model on the
+canonical undirected view beyond (`canonicalMax`; `C15_maxSizeJudge_sound`: both are the definitional
+maximum).  `judgeFlow` (capacity, conservation, value, and the residual cut certificate through the
+proved `reachFrom`).  Exact level: the mirror models on the view.
+
+Side conditions (the hypotheses of the model theorems, every one evaluated on every case it concerns):
+`viewOkB`, `viewEdgesOkB`, `ixOkB`, `viewSoundB`, `wfB` per `graph` line; `viewExactB`, `vacOkB` per
+matching request (`C15_maximum_maximum_checked`); `flowViewB`, `capsNonnegB`, `s ≠ t` per flow request.
+A failure is `SPECFAIL side condition <name> does not hold`.  Per flow request also `capsFitB` for the
+exact range of the request's capacity type (`C15_driver_flow`: no overflow, debug = release = the integer
+model); a failure is `SPECFAIL generator left the proved range` (the generator respects the range).
+
+`KNOWN D25` (open): `maximum` on directed storage, everything valid, exactly the answer of the
 mirror model (which follows out-edges only, like the code), but smaller than the maximum.
 -/
 namespace PetgraphModel.C15
@@ -124,6 +138,28 @@ def judgeAccessors (g : MGraph) (o : MObs) : Option String :=
   if o.bad != 0 then some s!"{o.bad} probes with a non-existent node were answered as matched" else
   none
 
+/-- how the maximality clause was decided -/
+inductive MaxVerdict where
+  /-- maximum; `cert` = a barrier certificate was found and accepted by `checkBarrier` -/
+  | maximum (cert : Bool)
+  /-- a valid matching, but a maximum matching has `k` pairs -/
+  | smaller (k : Nat)
+  /-- the size judge could not be evaluated (side condition of the canonical view) -/
+  | undecided
+  deriving DecidableEq, Repr
+
+/-- the maximality judge for an accepted `mate` table: barrier certificate on every case, and the
+definitional maximum (`maxSizeJudge`: exhaustive up to `exhaustiveLimit` nodes, the proved Gabow model
+on the canonical view beyond) wherever the certificate alone does not decide.
+Soundness: `C15_judgeMaximum_sound` (`Theorems/C15.lean`). -/
+def judgeMaximum (g : MGraph) (mate : List (Nat × Nat)) : MaxVerdict :=
+  let M := pairsOf mate
+  let cert := C15M.barrierCertB g M
+  if cert && decide (C15M.exhaustiveLimit < g.nodes.length) then .maximum true else
+  match C15M.maxSizeJudge g with
+  | some k => if M.length == k then .maximum cert else .smaller k
+  | none => .undecided
+
 /-- spec-level verdict for a matching answer; `maxReq` = the answer must be a maximum matching.
 `Sum.inl why` = violated, `Sum.inr (some k)` = valid but only `len < k = maximum`, `Sum.inr none` = fine -/
 def judgeMatching (g : MGraph) (o : MObs) (maxReq : Bool) : Sum String (Option Nat) :=
@@ -132,9 +168,26 @@ def judgeMatching (g : MGraph) (o : MObs) (maxReq : Bool) : Sum String (Option N
   | some why => .inl why
   | none =>
     if maxReq then
-      let k := maxMatchingSize g
-      if o.len == k then .inr none else .inr (some k)
+      match judgeMaximum g o.mate with
+      | .maximum _ => .inr none
+      | .smaller k => .inr (some k)
+      | .undecided => .inl "side condition canonicalView does not hold: the abstract graph is not well formed or its edge ids repeat"
     else .inr none
+
+/-- the first side condition of the `graph` line that fails -/
+def viewSideCondition (v : View) : Option String :=
+  if !C15M.wfB v.g then some "wf does not hold: node ids repeat or an edge endpoint is not a node" else
+  if !viewOkB v then some "viewOk does not hold: the neighbour iteration of this encoding does not describe the abstract graph" else
+  if !viewEdgesOkB v then some "viewEdgesOk does not hold: a row names an edge id with other endpoints" else
+  if !C15M.ixOkB v then some "ixOk does not hold: to_index is not an injection below node_bound inverted by from_index" else
+  if !C15M.viewSoundB v then some "viewSound does not hold: a listed neighbour is not adjacent" else
+  none
+
+/-- the side conditions of the matching theorems that are not already part of the `graph` line -/
+def matchingSideCondition (v : View) : Option String :=
+  if !C15M.viewExactB v then some "viewExact does not hold: the rows are not exactly the incident edges with their ids" else
+  if !C15M.vacOkB v then some "vacOk does not hold: from_index of a vacant index names a live node" else
+  none
 
 def renderMatching (v : View) (m : C15M.Matching) : String :=
   if m.fault then "panic" else
@@ -161,12 +214,16 @@ def step (d : DState) (req : List String) (impl : String) : DState × String :=
     | none => (d, "SPECFAIL unparsable graph line")
     | some v =>
       let enc := (field? req "enc").getD ""
-      if viewOkB v && viewEdgesOkB v && C15M.ixOkB v && C15M.viewSoundB v && C15M.wfB v.g then
-        ({ v := v, ok := true, enc := enc }, "ok")
-      else ({ v := v, ok := false, enc := enc }, "SPECFAIL neighbour iteration of this encoding does not describe the abstract graph")
+      match viewSideCondition v with
+      | none => ({ v := v, ok := true, enc := enc }, "ok")
+      | some why => ({ v := v, ok := false, enc := enc }, s!"SPECFAIL side condition {why}")
   | [kind] =>
     if kind != "greedy" && kind != "maximum" then (d, s!"SPECFAIL bad request {req}") else
     let isMax := kind == "maximum"
+    if !d.ok then (d, "SPECFAIL side condition view does not hold: the graph line of this case was rejected") else
+    match matchingSideCondition d.v with
+    | some why => (d, s!"SPECFAIL side condition {why}")
+    | none =>
     if impl == "panic" then (d, s!"SPECFAIL {kind}_matching panicked") else
     match parseMObs impl with
     | none => (d, s!"SPECFAIL malformed answer {impl}")
@@ -180,10 +237,18 @@ def step (d : DState) (req : List String) (impl : String) : DState × String :=
         if d.v.g.directed && ms == impl then
           (d, s!"KNOWN D25 maximum_matching on directed storage follows out-edges only: valid matching of size {o.len}, the maximum (direction ignored) is {k}")
         else (d, s!"SPECFAIL maximum: matching has {o.len} edges, the largest possible number is {k}")
-  | ["flow", s, t, _w, ebf] =>
+  | ["flow", s, t, wf, ebf] =>
     let s := s.toNat?.getD 0
     let t := t.toNat?.getD 0
     let eb := ((ebf.drop 3).toString.toNat?).getD 0
+    if !d.ok then (d, "SPECFAIL side condition view does not hold: the graph line of this case was rejected") else
+    match typeMax (wf.drop 2).toString with
+    | none => (d, s!"SPECFAIL bad request: unknown capacity type {wf}")
+    | some tmax =>
+    if !capsFitB tmax d.v.g s then
+      (d, s!"SPECFAIL generator left the proved range: a capacity, or the sum of the capacities out of the source, exceeds the exact range {tmax} of {wf}") else
+    if !(C15F.flowViewB d.v && C15F.capsNonnegB d.v.g) then
+      (d, "SPECFAIL side condition flowView/capsNonneg does not hold: the view's edge rows do not describe the abstract network, or a capacity is negative") else
     if impl == "panic" then (d, "SPECFAIL ford_fulkerson panicked") else
     let w := splitWords impl
     match field? w "value", field? w "flows" with
@@ -193,8 +258,6 @@ def step (d : DState) (req : List String) (impl : String) : DState × String :=
         match judgeFlow d.v.g s t fl val with
         | some why => (d, s!"SPECFAIL flow: {why}")
         | none =>
-          if !(C15F.flowViewB d.v && C15F.capsNonnegB d.v.g) then
-            (d, "SPECFAIL flow: the view's edge rows do not describe the abstract network (hypotheses of the model theorems)") else
           let r := C15F.fordFulkerson d.v s t
           (d, cmpExact (renderFlow d.v eb r) impl)
       | _, _ => (d, s!"SPECFAIL flow: value or flows are not integers: {impl}")
